@@ -20,7 +20,7 @@ def pre_build():
     import os
     import lockshape
     here = os.path.dirname(os.path.dirname(os.path.dirname(os.path.abspath(__file__))))
-    lockshape.write_lean(lockshape.generate("/repo"), os.path.join(here, "lean", "Generated", "LockShape.lean"))
+    lockshape.write_lean(lockshape.generate(os.environ.get("VERIF_REPO", "/repo")), os.path.join(here, "lean", "Generated", "LockShape.lean"))
 LEVEL = "proof"
 
 
